@@ -52,8 +52,8 @@ def tokens_of(doc):
 
     def opt(v):
         return '_' if v is None else enc(v)
-    keys = ';'.join('%s,%s,%s,%s' % (opt(k.get('id')), opt(k.get('name')), opt(k.get('type')),
-                                     '|'.join(enc(d) for d in k.get('defaults', [])) or '-') for k in doc['keys']) or '-'
+    keys = ';'.join('%s,%s,%s,%s,%s' % (opt(k.get('id')), opt(k.get('name')), opt(k.get('type')), opt(k.get('for')),
+                                        '|'.join(enc(d) for d in k.get('defaults', [])) or '-') for k in doc['keys']) or '-'
     children = ';'.join('%s,%s,%s,%s,%s,%s' % (
         enc(pre + c['tag']), opt(c.get('id')), opt(c.get('source')), opt(c.get('target')), opt(c.get('directed')),
         '|'.join('%s:%s' % (enc(k), enc(t)) for k, t in c.get('data', [])) or '-') for c in doc['children']) or '-'
@@ -91,14 +91,17 @@ def graphml_case(doc, tag, wellformed=None):
             early = 'from_graphml raised %s on a well-formed document' % impl
     sig = {'entry': 'from_graphml', 'namespace': doc['ns'], 'edgedefault': doc.get('edgedefault'),
            'nodeids': doc.get('nodeids'), 'weight_key': any(k.get('name') == doc.get('weight_key', 'weight') for k in doc['keys']),
-           'weight_default': any(k.get('name') == doc.get('weight_key', 'weight') and k.get('defaults') for k in doc['keys'])}
+           'weight_default': any(k.get('name') == doc.get('weight_key', 'weight') and k.get('defaults') for k in doc['keys']),
+           'weight_type': next((k.get('type') for k in reversed(doc['keys'])
+                                if k.get('name') == doc.get('weight_key', 'weight') and k.get('for') != 'node'), None),
+           'node_weight_key': any(k.get('name') == doc.get('weight_key', 'weight') and k.get('for') == 'node' for k in doc['keys'])}
     n_edges = sum(1 for c in doc['children'] if c['tag'] == 'edge')
     return Case(('graphml', toks), sig, run, impl, spec, n_edges >= 2 and impl.startswith('ok'),
                 {'f': 'from_graphml', 'doc': doc}), early
 
 
 def make_doc(rng, n, edges, ns=True, edgedefault='directed', nodeids=None, wtype=None, wdefault=None,
-             other_keys=False, shuffle=False):
+             other_keys=False, shuffle=False, node_weight_key=False):
     """edges: list of (i, j, directed attr or None, weight text or None)."""
     canonical = nodeids == 'canonical'
     ids = ['n%d' % i for i in range(n)] if canonical or rng.random() < 0.3 else \
@@ -107,10 +110,26 @@ def make_doc(rng, n, edges, ns=True, edgedefault='directed', nodeids=None, wtype
     if other_keys:
         keys.append({'id': 'c0', 'for': 'node', 'name': 'color', 'type': 'string', 'defaults': ['blue']})
         keys.append({'id': 'c1', 'for': 'edge', 'name': 'distance', 'type': 'double', 'defaults': []})
+        keys.append({'id': 'c2', 'for': rng.choice(['all', 'graph']), 'name': 'note', 'type': 'string', 'defaults': []})
+    if node_weight_key:
+        # NetworkX writes a node attribute and an edge attribute of the same name as two keys
+        keys.append({'id': 'dn', 'for': 'node', 'name': 'weight', 'type': 'double', 'defaults': []})
     if wtype is not None:
         keys.append({'id': 'd0', 'for': 'edge', 'name': 'weight', 'type': wtype,
                      'defaults': [] if wdefault is None else [wdefault]})
-    children = [{'tag': 'node', 'id': ids[i]} for i in range(n)]
+    if node_weight_key and wtype is not None and rng.random() < 0.5:
+        keys.reverse()
+    children = []
+    for i in range(n):
+        c = {'tag': 'node', 'id': ids[i]}
+        data = []
+        if other_keys and rng.random() < 0.5:
+            data.append(['c0', rng.choice(['red', 'green'])])
+        if node_weight_key and rng.random() < 0.7:
+            data.append(['dn', rng.choice(['1.5', '2'])])
+        if data:
+            c['data'] = data
+        children.append(c)
     echildren = []
     for (i, j, d, w) in edges:
         c = {'tag': 'edge', 'source': ids[i], 'target': ids[j]}
@@ -135,6 +154,10 @@ def make_doc(rng, n, edges, ns=True, edgedefault='directed', nodeids=None, wtype
 def wtext(rng, wtype):
     if wtype == 'int':
         return str(rng.choice([1, 2, 3, 0, -1, 7]))
+    if wtype == 'long':
+        return str(rng.choice([1, 2, 3, 2 ** 53 + 1, 2 ** 53 + 3, -5]))
+    if wtype == 'boolean':
+        return rng.choice(['true', 'false', 'false', 'True', '1', '0'])
     return rng.choice(['1', '2.5', '0.5', '3', '-1.25', '0', '4.0'])
 
 
@@ -166,8 +189,8 @@ def gen_cases(ctx, out, earlies, exhaustive=False):
     for _ in range(0 if exhaustive else (300 if quick else 6000)):
         n = rng.randint(1, 6)
         k = rng.randint(0, 7)
-        wtype = rng.choice([None, 'int', 'double', 'long', 'float'])
-        wd = None if wtype is None or rng.random() < 0.5 else wtext(rng, 'int' if wtype == 'int' else 'double')
+        wtype = rng.choice([None, 'int', 'double', 'long', 'float', 'boolean'])
+        wd = None if wtype is None or rng.random() < 0.5 else wtext(rng, wtype)
         edges = []
         for _e in range(k):
             if edges and rng.random() < 0.3:
@@ -177,10 +200,10 @@ def gen_cases(ctx, out, earlies, exhaustive=False):
             else:
                 i, j = rng.randrange(n), rng.randrange(n)
             edges.append((i, j, rng.choice([None, None, 'true', 'false']),
-                          None if wtype is None or rng.random() < 0.3 else wtext(rng, 'int' if wtype == 'int' else 'double')))
+                          None if wtype is None or rng.random() < 0.3 else wtext(rng, wtype)))
         add(make_doc(rng, n, edges, ns=rng.random() < 0.8, edgedefault=rng.choice(['directed', 'undirected']),
                      nodeids=rng.choice([None, None, 'canonical', 'free']), wtype=wtype, wdefault=wd,
-                     other_keys=rng.random() < 0.3, shuffle=rng.random() < 0.3))
+                     other_keys=rng.random() < 0.3, shuffle=rng.random() < 0.3, node_weight_key=rng.random() < 0.15))
         ctx.count('graphml:sampled')
     # malformed / degenerate documents (run line only)
     base = make_doc(rng, 2, [(0, 1, None, None)])
@@ -200,6 +223,25 @@ def gen_cases(ctx, out, earlies, exhaustive=False):
     d = make_doc(rng, 3, [(0, 1, None, None)])
     d['children'][1]['id'] = d['children'][0]['id']; bad.append(d)       # a repeated node id
     d = make_doc(rng, 0, []); bad.append(d)
+    # model = code on the refusals the review listed: unknown weight type, data with a key of the other element kind,
+    # unconvertible non-weight data, node data with a key for="all"
+    d = make_doc(rng, 2, [(0, 1, None, None)], wtype='short'); bad.append(d)
+    d = make_doc(rng, 2, [(0, 1, None, '3')], wtype='short'); bad.append(d)
+    d = make_doc(rng, 2, [(0, 1, None, None)], wtype='short', wdefault='2'); bad.append(d)
+    d = make_doc(rng, 2, [(0, 1, None, None)])
+    d['keys'] = [{'id': 'c0', 'for': 'node', 'name': 'color', 'type': 'string', 'defaults': []}]
+    d['children'][-1]['data'] = [['c0', 'x']]; bad.append(d)
+    d = make_doc(rng, 2, [(0, 1, None, None)])
+    d['keys'] = [{'id': 'c1', 'for': 'edge', 'name': 'count', 'type': 'int', 'defaults': []}]
+    d['children'][-1]['data'] = [['c1', 'x']]; bad.append(d)
+    d = make_doc(rng, 2, [(0, 1, None, None)])
+    d['keys'] = [{'id': 'c2', 'for': 'all', 'name': 'note', 'type': 'string', 'defaults': []}]
+    d['children'][0]['data'] = [['c2', 'x']]; bad.append(d)
+    d = make_doc(rng, 2, [(0, 1, None, None)])
+    d['keys'] = [{'id': 'c1', 'for': 'edge', 'name': 'count', 'type': 'int', 'defaults': []}]
+    d['children'][0]['data'] = [['c1', '4']]; bad.append(d)
+    d = make_doc(rng, 2, [(0, 1, None, None)])
+    d['keys'] = [{'id': 'c1', 'name': 'count', 'type': 'int', 'defaults': []}]; bad.append(d)
     for d in bad:
         d = dict(d)
         d['wellformed'] = False
